@@ -9,7 +9,7 @@ LEAN_MODULES = ["B2Z.Props.C11"]
 THEOREMS = [
     "B2Z.C11_encode_partitions", "B2Z.C11_plink_slices", "B2Z.genPartitionsE_none_iff",
     "B2Z.C11_disjoint", "B2Z.C11_cover", "B2Z.C11_chunks_disjoint", "B2Z.chunkAlignedSlices_eq",
-    "B2Z.C11_balanced", "B2Z.C11_balanced_antitone", "B2Z.C11_count_exact", "B2Z.C11_bridge_pieces", "B2Z.C11_bridge_encode",
+    "B2Z.C11_balanced", "B2Z.C11_balanced_antitone", "B2Z.C11_count_exact", "B2Z.C11_bridge_pieces", "B2Z.C11_bridge_encode", "B2Z.C11_bridge_slices",
 ]
 GEN_DEPENDS = ["Partitions."]
 ASSUMPTIONS = [
